@@ -4,20 +4,43 @@ The retry half of C05 as an executable predicate over an observed run (final res
 list of attempts with the body each one could read):
 
   * answered: retries enabled (try_duration > 0, fail_timeout > 0), some backend is healthy
-    (up, below its connection cap, answering every attempt), the others only ever fail or
-    answer, and the failures fit the time budget  ⇒  the request succeeds;
+    (up, below its connection cap, answering every attempt) from the arrival of the request to its
+    end, the others only ever fail or answer — whatever state they are in on arrival and however
+    that state changes while the request is served — and the failures fit the time budget
+    ⇒  the request succeeds;
+  * answered, when backends come back: retries enabled, the backends only ever fail or answer, the
+    failures fit the (slightly stricter) time budget `budgetLate`, and once the attempts of the run
+    have been made some backend that always answers is in rotation (in the state on arrival or
+    the state the changes during those attempts have left it in)  ⇒  the request succeeded — the
+    loop does not give up while a healthy backend is there and the duration is not spent;
   * every attempt receives the complete original body;
-  * no backend is ever available  ⇒  502 without a single attempt.
+  * no backend is in rotation on arrival (so no attempt is made, and nothing changes)
+    ⇒  502 without a single attempt.
 -/
 namespace Casket.RetrySpec
 open Casket.Policy Casket.Retry
 
 def isFull (c : Cfg) (h : HostCfg) : Bool := decide (c.maxConns > 0) && decide (h.conns ≥ c.maxConns)
 
+def fullS (c : Cfg) (s : HostState) : Bool := decide (c.maxConns > 0) && decide (s.conns ≥ c.maxConns)
+
+/-- in rotation, this request's own failures apart: not unhealthy, below the cap, fewer than max_fails failures -/
+def upS (c : Cfg) (s : HostState) : Bool := !s.unhealthy && !fullS c s && decide (s.fails < c.maxFails)
+
 def alwaysOk (h : HostCfg) : Bool := h.script.all (fun o => o == .ok)
 
-/-- a healthy backend: not marked unhealthy, below its cap, answers every attempt -/
-def good (c : Cfg) (h : HostCfg) : Bool := !h.unhealthy && !isFull c h && alwaysOk h
+/-- a healthy backend: in rotation when the request arrives (not marked unhealthy, below its cap,
+fewer than max_fails recorded failures), answers every attempt -/
+def good (c : Cfg) (h : HostCfg) : Bool := !h.unhealthy && !isFull c h && decide (h.fails < c.maxFails) && alwaysOk h
+
+/-- no event changes the state of backend i -/
+def untouched (c : Cfg) (i : Nat) : Bool := c.events.all fun e => e.host != i
+
+/-- backend i is healthy on arrival and stays so -/
+def stableGood (c : Cfg) (i : Nat) : Bool :=
+  match c.hosts[i]? with
+  | some h => good c h && untouched c i
+  | none => false
 
 def okOrFail : Outcome → Bool
   | .ok => true
@@ -38,12 +61,42 @@ def budget (c : Cfg) : Bool :=
   decide (c.interval ≥ 1) && decide (c.maxFails ≥ 1) &&
     decide (c.maxFails * badCount c * c.interval < c.tryDuration) && decide (c.failTimeout ≥ c.tryDuration)
 
-def sized (c : Cfg) : Bool := decide (c.hosts.length ≤ 2147483648) && c.hosts.all fun h => decide (h.conns ≤ maxInt64)
+def sized (c : Cfg) : Bool :=
+  decide (c.hosts.length ≤ 2147483648) && (c.hosts.all fun h => decide (h.conns ≤ maxInt64)) &&
+    c.events.all fun e => decide (e.state.conns ≤ maxInt64)
 
 def mustSucceed (c : Cfg) : Bool :=
-  retriesEnabled c && c.hosts.any (good c) && okFailOnly c && budget c && sized c
+  retriesEnabled c && (List.range c.hosts.length).any (stableGood c) && okFailOnly c && budget c && sized c
 
-def neverAvailable (c : Cfg) : Bool := c.hosts.all fun h => h.unhealthy || isFull c h
+/-- the state the events of the first `m` attempts have given the backends -/
+def overAfter (c : Cfg) : Nat → (Nat → Option HostState)
+  | 0 => fun _ => none
+  | m + 1 => applyEvents c.events m (overAfter c m)
+
+/-- backend i is healthy once `m` attempts have been made: it answers every attempt and is in
+rotation in the state it arrived in or the events of those attempts have given it -/
+def goodAfter (c : Cfg) (m i : Nat) : Bool :=
+  match c.hosts[i]?, hostState c (overAfter c m) i with
+  | some h, some s => alwaysOk h && upS c s
+  | _, _ => false
+
+/-- backends that can fail an attempt -/
+def flakyCount (c : Cfg) : Nat := (c.hosts.filter fun h => !alwaysOk h).length
+
+/-- Timing side condition when backends come and go: all failures the backends can produce before
+they are marked down, each followed by one try_interval sleep, fit into try_duration, and a
+recorded failure outlives the retry window and the last sleep. -/
+def budgetLate (c : Cfg) : Bool :=
+  decide (c.interval ≥ 1) && decide (c.maxFails ≥ 1) &&
+    decide (c.maxFails * flakyCount c * c.interval < c.tryDuration) &&
+    decide (c.failTimeout ≥ c.tryDuration + c.interval)
+
+/-- after `m` attempts a healthy backend is there and the duration cannot be spent -/
+def mustSucceedAfter (c : Cfg) (m : Nat) : Bool :=
+  retriesEnabled c && okFailOnly c && budgetLate c && sized c && (List.range c.hosts.length).any (goodAfter c m)
+
+/-- no backend is in rotation when the request arrives -/
+def neverAvailable (c : Cfg) : Bool := c.hosts.all fun h => !upS c h.state
 
 def bodiesComplete (c : Cfg) (attempts : List Attempt) : Bool :=
   attempts.all fun a => !c.hasBody || a.body == .full || a.body == .unread
@@ -51,6 +104,8 @@ def bodiesComplete (c : Cfg) (attempts : List Attempt) : Bool :=
 def verdict (c : Cfg) (res : Result) (attempts : List Attempt) : String :=
   if mustSucceed c && res != .success then
     "bad:not-answered:a healthy backend exists and retries are enabled, yet the request failed"
+  else if mustSucceedAfter c attempts.length && res != .success then
+    "bad:not-answered:the request failed although a healthy backend was in rotation after the last attempt and try_duration was not spent"
   else if !bodiesComplete c attempts then
     "bad:body-incomplete:an attempt did not receive the complete original body"
   else if neverAvailable c && (res != .badGateway || !attempts.isEmpty) then
